@@ -407,6 +407,33 @@ func checkCommitStructure(p *Prog, r *Roles, res *Result) {
 						if c, ok := v.(*ssa.Call); ok && c.Common().StaticCallee() == nil && !c.Common().IsInvoke() {
 							isOpRes = true
 						}
+						// or the result of a helper of the adapter that runs the queued closures and returns their
+						// error unchanged (error preservation inside the helper)
+						if c, ok := v.(*ssa.Call); ok {
+							if h := c.Common().StaticCallee(); h != nil && h.Pkg == commit.Pkg && h.Blocks != nil && errorResultIndex(h.Signature) >= 0 {
+								nOps, lost := 0, false
+								for _, hc := range callsIn(h) {
+									oc, ok := hc.(*ssa.Call)
+									if !ok || oc.Common().StaticCallee() != nil || oc.Common().IsInvoke() {
+										continue
+									}
+									if _, isB := oc.Common().Value.(*ssa.Builtin); isB {
+										continue
+									}
+									ei := errorResultIndex(oc.Common().Signature())
+									if ei < 0 {
+										continue
+									}
+									nOps++
+									if len(errLosses(p, h, oc, extractsOf(oc)[ei])) > 0 {
+										lost = true
+									}
+								}
+								if nOps > 0 && !lost {
+									isOpRes = true
+								}
+							}
+						}
 					}
 					if !isOpRes || !instrDominatesBlock(b, ec) && !reachesBlock(b, ec.Block()) {
 						continue
